@@ -22,6 +22,7 @@ type Behaviour struct {
 	H       int    // height of the lie / checkpoint index / message count before the disconnect / fork depth
 	N       int    // lighterFork: branch length
 	Variant string // liarHeaders: pow|unlinked ; noServices: cf|witness ; liarCFHeaders: inconsistent|consistent ; liarCFCheckpt: only|consistent
+	SkewMin int    // minutes this node's clock is ahead (timestamp of its version message)
 	Tx      string // reaction to a transaction inv: "" (ignore) | accept | reject-nogetdata | reject | confirm-after-release | reject-with
 	// reject-with: ask for the transaction, then reject it with this code and reason (%TX% = its id)
 	RejCode   wire.RejectCode
@@ -48,6 +49,9 @@ func (b Behaviour) String() string {
 	}
 	if b.Tx != "" {
 		s += " tx=" + b.Tx
+	}
+	if b.SkewMin != 0 {
+		s += fmt.Sprintf(" skew=%d", b.SkewMin)
 	}
 	return s
 }
@@ -181,6 +185,11 @@ func (p *Peer) Serve(conn net.Conn) {
 	ver.Services = p.services()
 	ver.ProtocolVersion = int32(pver)
 	ver.UserAgent = fmt.Sprintf("/netsim:%d/", p.Idx)
+	if p.B.SkewMin != 0 {
+		// this node's clock is off: the client takes the timestamp of the version
+		// message as a sample for its network-adjusted time
+		ver.Timestamp = time.Unix(time.Now().Add(time.Duration(p.B.SkewMin)*time.Minute).Unix(), 0)
+	}
 	if _, err := wire.WriteMessageWithEncodingN(conn, ver, pver, net, wire.WitnessEncoding); err != nil {
 		return
 	}
